@@ -164,5 +164,21 @@ PROPS["C15"] = dict(
     assumptions=["sha256 from the Go standard library", "which text ran is identified by its root field in the resolver log"],
 )
 
+PROPS["C09"] = dict(
+    pkg="c09", race=False, level="exploration", prepare="exec_projects",
+    projects_quick=[("core", ["v0"])], projects_thorough=[("core", ["v0"])],
+    quick=dict(shards=8, timeout=900), thorough=dict(shards=16, timeout=3000),
+    claim="model-based testing of the HTTP contract on a generated server behind handler.Server: rapid draws documents with 1-4 "
+          "operations of mixed kinds (each revealing itself through a distinct root field in the universal resolver's log), "
+          "operationName absent/each/unknown, Accept headers (lists, q-values, junk), configured ResponseHeaders, transport order "
+          "permutations and parse/validation/variable damage, over GET, POST, application/graphql and urlencoded; an independent "
+          "statement of the negotiation and status rules gives the expected Content-Type, status, refusal of non-queries over GET, "
+          "the operation that may run, strict-JSON GraphQL body shape, and 'executed => 200' / 'non-2xx => nothing ran'",
+    note="application/graphql and urlencoded transports do not negotiate (configured header or application/json), as their code documents",
+    technique="model-based property testing (rapid) against an explicit contract model; resolver log as execution witness",
+    rule="evaluation = one HTTP request; non-trivial = multi-operation document, non-default Accept, or GET; distinct by the full request",
+    assumptions=["well-formed requests at the HTTP/JSON level only (malformed ones belong to C10)"],
+)
+
 # properties deliberately not claimed (reason); anything else missing from PROPS is "not built yet"
 NOT_CLAIMED = {}
